@@ -616,6 +616,12 @@ func (i *IniParser) parse(ini *ini) error {
 
 	for opt, quoted := range quotesLookup {
 		opt.iniQuote = quoted
+
+		// values read as defaults are replaced, not extended, by a later
+		// explicit occurrence of the option
+		if i.ParseAsDefaults {
+			opt.clearReferenceBeforeSet = true
+		}
 	}
 
 	return nil
